@@ -43,6 +43,7 @@ EXTENDS Integers, Sequences, FiniteSets, TLC, Json
 
 CONSTANTS Deviations, \* the named deviations of the coded decoders that the design layer models, a subset of
                       \* {"optfix", "expelled", "sortedset", "dsmap"}: remove a name when the code is repaired
+                      \* ("dsmap_sorted" instead of "dsmap": EvidenceDoubleSign.EncodeRLP sorts by hash, the decoder is unchanged)
           Scope,     \* "items" | "bytes" | "typed" | "seeds" | "all"
           Large,     \* TRUE = the large alphabets of scopes items/bytes
           NV,        \* sample variants 0..NV-1 per type (scope typed)
@@ -227,8 +228,10 @@ PadHash(v) == IF Len(v) >= 32 THEN SubSeq(v, Len(v) - 31, Len(v)) ELSE [i \in 1.
 IsPair(x) == x.k = "l" /\ Len(x.e) = 2 /\ x.e[1].k = "s" /\ x.e[2].k = "s"
 
 RECURSIVE Match(_, _, _)
+DsActive == "dsmap" \in Deviations \/ "dsmap_sorted" \in Deviations
+Active(k) == IF k = "dsmap" THEN DsActive ELSE k \in Deviations
 Match(s, it, strict0) ==
-  LET strict == strict0 \/ s.k \notin Deviations IN
+  LET strict == strict0 \/ ~Active(s.k) IN
   CASE s.k = "uint"   -> it.k = "s" /\ Len(it.v) <= s.n /\ NoLead(it.v)
     [] s.k = "big"    -> it.k = "s" /\ NoLead(it.v)
     [] s.k = "bool"   -> it.k = "s" /\ (it.v = <<>> \/ it.v = <<1>>)
@@ -245,6 +248,9 @@ Match(s, it, strict0) ==
     [] s.k = "dsmap"  -> /\ it.k = "l" /\ \A i \in DOMAIN it.e : IsPair(it.e[i])
                          /\ strict => /\ \A i \in DOMAIN it.e : Len(it.e[i].e[1].v) = 32
                                       /\ \A i, j \in DOMAIN it.e : i # j => it.e[i].e[1].v # it.e[j].e[1].v
+                                      \* as coded there is no canonical order (a Go map is iterated); once the encoder
+                                      \* sorts, THE encoding is the ascending one
+                                      /\ "dsmap" \notin Deviations => \A i \in 1..(Len(it.e) - 1) : LexLess(it.e[i].e[1].v, it.e[i + 1].e[1].v)
     [] s.k = "struct" -> it.k = "l" /\ Len(it.e) = Len(s.f) /\ \A i \in DOMAIN it.e : Match(s.f[i], it.e[i], strict0)
 
 TypedCanonical(s, bs) == Canonical(bs) /\ Match(s, Dec(bs), TRUE)      \* property layer
@@ -260,6 +266,9 @@ DsKeys(q) == { PadHash(q[i].e[1].v) : i \in DOMAIN q }
 DsLast(q, key) == LET i == CHOOSE i \in DOMAIN q : PadHash(q[i].e[1].v) = key /\ \A j \in DOMAIN q : PadHash(q[j].e[1].v) = key => j <= i
                   IN q[i].e[2]
 DsEntries(q) == { Lst(<<S(key), DsLast(q, key)>>) : key \in DsKeys(q) }
+RECURSIVE DsSorted(_, _)
+DsSorted(q, keys) == IF keys = {} THEN <<>>
+                     ELSE LET m == CHOOSE x \in keys : \A y \in keys \ {x} : LexLess(x, y) IN <<Lst(<<S(m), DsLast(q, m)>>)>> \o DsSorted(q, keys \ {m})
 
 RECURSIVE SetToSeq(_)
 SetToSeq(T) == IF T = {} THEN <<>> ELSE LET x == CHOOSE x \in T : TRUE IN <<x>> \o SetToSeq(T \ {x})
@@ -268,7 +277,9 @@ Norm1(s, it) ==
   CASE s.k = "optfix"    -> IF it.k = "l" THEN S(<<>>) ELSE it
     [] s.k = "expelled"  -> IF it.v = <<1>> THEN it ELSE S(<<>>)
     [] s.k = "sortedset" -> Lst(SortItems(Range(it.e)))
-    [] s.k = "dsmap"     -> Lst(SetToSeq(DsEntries(it.e)))                 \* SOME order: the real one is not determined, see Conf
+    [] s.k = "dsmap"     -> IF ~DsActive THEN it
+                            ELSE IF "dsmap" \in Deviations THEN Lst(SetToSeq(DsEntries(it.e)))   \* SOME order: the real one is not determined, see Conf
+                            ELSE Lst(DsSorted(it.e, DsKeys(it.e)))
     [] s.k = "list"      -> Lst([i \in DOMAIN it.e |-> Norm1(s.e, it.e[i])])
     [] s.k = "struct"    -> Lst([i \in DOMAIN it.e |-> Norm1(s.f[i], it.e[i])])
     [] OTHER -> it
@@ -276,7 +287,7 @@ Norm1(s, it) ==
 \* r is a possible re-encoding (as item) of the accepted item `it`
 RECURSIVE Conf(_, _, _)
 Conf(s, it, r) ==
-  CASE s.k = "dsmap"  -> r.k = "l" /\ Len(r.e) = Cardinality(DsKeys(it.e)) /\ Range(r.e) = DsEntries(it.e)
+  CASE s.k = "dsmap" /\ "dsmap" \in Deviations -> r.k = "l" /\ Len(r.e) = Cardinality(DsKeys(it.e)) /\ Range(r.e) = DsEntries(it.e)
     [] s.k = "list"   -> r.k = "l" /\ Len(r.e) = Len(it.e) /\ \A i \in DOMAIN it.e : Conf(s.e, it.e[i], r.e[i])
     [] s.k = "struct" -> r.k = "l" /\ Len(r.e) = Len(it.e) /\ \A i \in DOMAIN it.e : Conf(s.f[i], it.e[i], r.e[i])
     [] OTHER -> r = Norm1(s, it)
@@ -284,7 +295,7 @@ Conf(s, it, r) ==
 \* ---- why a design-accepted item is not the encoding of a value: the classes used as discriminators
 RECURSIVE Defects(_, _)
 Defects(s, it) ==
-  CASE s.k \in {"optfix", "expelled", "sortedset", "dsmap"} /\ s.k \notin Deviations -> {}
+  CASE s.k \in {"optfix", "expelled", "sortedset", "dsmap"} /\ ~Active(s.k) -> {}
     [] s.k = "optfix"    -> IF it.k = "l" THEN {s.own, "empty_list_for_nil"} ELSE {}
     [] s.k = "expelled"  -> IF it.v \notin {<<>>, <<1>>} THEN {s.own, "expelled_byte"} ELSE {}
     [] s.k = "sortedset" ->
@@ -293,7 +304,9 @@ Defects(s, it) ==
     [] s.k = "dsmap"     ->
          (IF \E i \in DOMAIN it.e : Len(it.e[i].e[1].v) # 32 THEN {s.own, "hash_length"} ELSE {})
          \cup (IF Cardinality(DsKeys(it.e)) < Len(it.e) THEN {s.own, "duplicate"} ELSE {})
-         \cup (IF Cardinality(DsKeys(it.e)) >= 2 THEN {s.own, "map_order"} ELSE {})
+         \cup (IF "dsmap" \in Deviations /\ Cardinality(DsKeys(it.e)) >= 2 THEN {s.own, "map_order"} ELSE {})
+         \cup (IF "dsmap" \notin Deviations /\ \E i \in 1..(Len(it.e) - 1) : ~LexLess(PadHash(it.e[i].e[1].v), PadHash(it.e[i + 1].e[1].v))
+               THEN {s.own, "unsorted"} ELSE {})
     [] s.k = "list"      -> UNION { Defects(s.e, it.e[i]) : i \in DOMAIN it.e }
     [] s.k = "struct"    -> UNION { Defects(s.f[i], it.e[i]) : i \in DOMAIN it.e }
     [] OTHER -> {}
